@@ -44,6 +44,8 @@ impl Out {
     fn put<T: serde::Serialize>(&mut self, kind: &str, value: &T, expected: Value, r: &mut Report) {
         self.n += 1; r.evaluations += 1; r.nontrivial += 1;
         let p = self.dir.join(format!("{:05}.toml", self.n));
+        // every third document OVERWRITES an existing, much longer TOML file (what store.toml / <layer>.toml / launch.toml of an earlier build are)
+        if self.n % 3 == 0 { let mut old = String::from("[metadata]\nold_key = \"old\"\n"); for i in 0..200 { old.push_str(&format!("old_{i} = \"{}\"\n", "x".repeat(40))); } std::fs::write(&p, old).unwrap(); }
         if let Err(e) = libcnb::write_toml_file(value, &p) {
             r.violation("serialise", "a value built through the public builders cannot be written", format!("{kind} #{}: {expected}", self.n), "Ok".into(), format!("{e:?}"));
             return;
@@ -54,7 +56,7 @@ impl Out {
 
 pub fn toml_text(thorough: bool) -> Report {
     let mut r = Report::new(
-        "values built through LaunchBuilder/ProcessBuilder/Label/Slice, BuildPlanBuilder (every provides/requires/or sequence up to the bound, incl. empty groups, requires with nested metadata), LayerContentMetadata (all type flag combinations, absent types, nested metadata with every TOML value kind), Store and ExecDProgramOutput, with string payloads {empty, quotes, backslashes, newlines, CRLF, tabs, control characters, NUL, Unicode, TOML-looking text}: written by the real write_toml_file / write_exec_d_program_output (fd 3), decoded by Python tomllib with the CNB field names and defaults, compared with the constructed value; types libcnb can read back are also read with read_toml_file and compared",
+        "values built through LaunchBuilder/ProcessBuilder/Label/Slice (incl. every sequence of up to 3 singular/plural builder calls; every third document overwrites a longer existing file), BuildPlanBuilder (every provides/requires/or sequence up to the bound, incl. empty groups, requires with nested metadata), LayerContentMetadata (all type flag combinations, absent types, nested metadata with every TOML value kind), Store and ExecDProgramOutput, with string payloads {empty, quotes, backslashes, newlines, CRLF, tabs, control characters, NUL, Unicode, TOML-looking text}: written by the real write_toml_file / write_exec_d_program_output (fd 3), decoded by Python tomllib with the CNB field names and defaults, compared with the constructed value; types libcnb can read back are also read with read_toml_file and compared",
         if thorough { "builder sequences over {provides, requires, or} up to length 6; 19 payload strings in every string position" } else { "builder sequences up to length 4; 19 payload strings in every string position" },
     );
     let t = tempfile::tempdir().unwrap();
@@ -86,6 +88,29 @@ pub fn toml_text(thorough: bool) -> Report {
         }
     }
     o.put("launch", &LaunchBuilder::new().build(), json!({"processes": [], "labels": [], "slices": []}), &mut r);
+    // every sequence of up to 3 calls over {label, labels[2], slice, slices[2], process, processes[2]}: each call APPENDS
+    {
+        let mk_label = |i: usize| Label { key: format!("k{i}"), value: if i % 2 == 0 { String::new() } else { format!("v{i}") } };
+        let mk_slice = |i: usize| Slice { path_globs: vec![format!("dir{i}/**")] };
+        let mk_proc = |i: usize| ProcessBuilder::new(format!("p{i}").parse().unwrap(), [format!("cmd{i}")]).build();
+        let mut seqs: Vec<Vec<u8>> = vec![vec![]]; let mut frontier = seqs.clone();
+        for _ in 0..3 { let mut next = vec![]; for q in &frontier { for c in 0..6u8 { let mut q2 = q.clone(); q2.push(c); next.push(q2); } } seqs.extend(next.iter().cloned()); frontier = next; }
+        for seq in seqs.iter().skip(1) {
+            let mut lb = LaunchBuilder::new(); let (mut labels, mut slices, mut procs): (Vec<Value>, Vec<Value>, Vec<Value>) = (vec![], vec![], vec![]); let mut n = 0usize;
+            let lj = |i: usize| json!({"key": format!("k{i}"), "value": if i % 2 == 0 { String::new() } else { format!("v{i}") }});
+            let sj = |i: usize| json!({"paths": [format!("dir{i}/**")]});
+            let pj = |i: usize| json!({"type": format!("p{i}"), "command": [format!("cmd{i}")], "args": [], "default": false, "working-dir": "."});
+            for c in seq { match c {
+                0 => { lb.label(mk_label(n)); labels.push(lj(n)); n += 1; }
+                1 => { lb.labels([mk_label(n), mk_label(n + 1)]); labels.push(lj(n)); labels.push(lj(n + 1)); n += 2; }
+                2 => { lb.slice(mk_slice(n)); slices.push(sj(n)); n += 1; }
+                3 => { lb.slices([mk_slice(n), mk_slice(n + 1)]); slices.push(sj(n)); slices.push(sj(n + 1)); n += 2; }
+                4 => { lb.process(mk_proc(n)); procs.push(pj(n)); n += 1; }
+                _ => { lb.processes([mk_proc(n), mk_proc(n + 1)]); procs.push(pj(n)); procs.push(pj(n + 1)); n += 2; }
+            } }
+            o.put("launch", &lb.build(), json!({"processes": procs, "labels": labels, "slices": slices}), &mut r);
+        }
+    }
     // ---- build plan: every call sequence over {P, R, O}
     let maxlen = if thorough { 6 } else { 4 };
     let mut seqs: Vec<Vec<u8>> = vec![vec![]];
